@@ -405,7 +405,7 @@ func TestVerifC02Child(t *testing.T) {
 			if ctx := g.getCtx(); ctx != nil {
 				select {
 				case <-ctx.Done():
-				case <-time.After(60 * time.Second):
+				case <-time.After(300 * time.Second):
 					say("R cancel-timeout")
 					os.Exit(0)
 				}
@@ -414,7 +414,7 @@ func TestVerifC02Child(t *testing.T) {
 		if waitHandler {
 			select {
 			case <-handlerDone:
-			case <-time.After(60 * time.Second):
+			case <-time.After(300 * time.Second):
 				say("R cancel-timeout")
 				os.Exit(0)
 			}
@@ -539,14 +539,14 @@ func TestVerifC02Child(t *testing.T) {
 			case <-ro.paused:
 				return true
 			case <-ro.done:
-			case <-time.After(60 * time.Second):
+			case <-time.After(300 * time.Second):
 			}
 			return false
 		}
 		wait := func(c chan struct{}) {
 			select {
 			case <-c:
-			case <-time.After(60 * time.Second):
+			case <-time.After(300 * time.Second):
 				say("R put2-timeout")
 				os.Exit(0)
 			}
@@ -566,7 +566,7 @@ func TestVerifC02Child(t *testing.T) {
 			b.resp.closed <- true
 			select {
 			case <-b.ctx.Done():
-			case <-time.After(60 * time.Second):
+			case <-time.After(300 * time.Second):
 				say("R cancel-timeout")
 				os.Exit(0)
 			}
@@ -621,7 +621,7 @@ func TestVerifC02Child(t *testing.T) {
 		case <-doneA:
 			say("R no-overlap")
 			os.Exit(0)
-		case <-time.After(60 * time.Second):
+		case <-time.After(300 * time.Second):
 			say("R pool-timeout")
 			os.Exit(0)
 		}
@@ -629,7 +629,7 @@ func TestVerifC02Child(t *testing.T) {
 		close(resume)
 		select {
 		case <-doneA:
-		case <-time.After(60 * time.Second):
+		case <-time.After(300 * time.Second):
 			say("R pool-timeout")
 			os.Exit(0)
 		}
